@@ -124,8 +124,11 @@ __CPROVER_assigns(item->type, item->valueint, item->valuedouble, GHOST_STRTOD; P
  * are owned by that node's subtree and their release is cJSON_Delete's obligation (composition lemma, DESIGN 1.4).
  * g_disp/g_disp_ret/g_pv_end log which delegate a replaced callee was and what it answered (ghost only). */
 enum { D_NONE = 0, D_STRING = 1, D_NUMBER = 2, D_ARRAY = 3, D_OBJECT = 4, D_VALUE = 5 };
-int g_disp; cJSON_bool g_disp_ret; size_t g_pv_end;
-#define GHOST_LOG g_disp, g_disp_ret, g_pv_end
+struct vf_log_ghost { int disp; cJSON_bool disp_ret; size_t pv_end; } g_lg;
+#define g_disp g_lg.disp
+#define g_disp_ret g_lg.disp_ret
+#define g_pv_end g_lg.pv_end
+#define GHOST_LOG g_lg
 #define LOGGED(tag, buf) (g_disp == (tag) && g_disp_ret == __CPROVER_return_value && g_pv_end == (buf)->offset)
 #define LIVE_SAME (g_live == __CPROVER_old(g_live))
 
@@ -137,10 +140,12 @@ int g_disp; cJSON_bool g_disp_ret; size_t g_pv_end;
         (item)->child == __CPROVER_old((item)->child) && (item)->valueint == __CPROVER_old((item)->valueint))) /*@C03*/ \
     __CPROVER_ensures(!__CPROVER_return_value ==> LIVE_SAME) /*@C01 C03 C08*/ \
     __CPROVER_ensures(C14_POST((b)->hooks)) /*@C14*/
-#define PARSE_ASSIGNS(item, b) (item)->type, (item)->valueint, (item)->valuedouble, (item)->valuestring, (item)->child, (b)->offset, (b)->depth, GHOST_ALLOC, GHOST_STRTOD, GHOST_LOG
+/* item fields child..valuedouble are contiguous: one target (next, prev and string stay outside the frame) */
+#define ITEM_VALUE_FIELDS(item) __CPROVER_object_upto(&(item)->child, offsetof(cJSON, string) - offsetof(cJSON, child))
+#define PARSE_ASSIGNS(item, b) ITEM_VALUE_FIELDS(item), (b)->offset, (b)->depth, GHOST_ALLOC, GHOST_STRTOD, GHOST_LOG
 
 /* ------------------------------------------------------------------ callee views of the sub-parsers (replaced in parse_value) */
-#ifndef VF_ENF_parse_string
+#if !defined(VF_ENF_parse_string) && !defined(VF_CONTAINER_VIEWS)
 static cJSON_bool parse_string(cJSON * const item, parse_buffer * const input_buffer)
 __CPROVER_requires(__CPROVER_is_fresh(item, sizeof(cJSON)) && PB_FRESH(input_buffer))
 PARSE_COMMON(item, input_buffer)
@@ -150,7 +155,7 @@ __CPROVER_ensures(LOGGED(D_STRING, input_buffer))
 __CPROVER_assigns(PARSE_ASSIGNS(item, input_buffer));
 #endif
 
-#ifndef VF_ENF_parse_array
+#if !defined(VF_ENF_parse_array) && !defined(VF_CONTAINER_VIEWS)
 static cJSON_bool parse_array(cJSON * const item, parse_buffer * const input_buffer)
 __CPROVER_requires(__CPROVER_is_fresh(item, sizeof(cJSON)) && PB_FRESH(input_buffer) && input_buffer->offset < input_buffer->length)
 PARSE_COMMON(item, input_buffer)
@@ -160,7 +165,7 @@ __CPROVER_ensures(LOGGED(D_ARRAY, input_buffer))
 __CPROVER_assigns(PARSE_ASSIGNS(item, input_buffer));
 #endif
 
-#ifndef VF_ENF_parse_object
+#if !defined(VF_ENF_parse_object) && !defined(VF_CONTAINER_VIEWS)
 static cJSON_bool parse_object(cJSON * const item, parse_buffer * const input_buffer)
 __CPROVER_requires(__CPROVER_is_fresh(item, sizeof(cJSON)) && PB_FRESH(input_buffer))
 PARSE_COMMON(item, input_buffer)
@@ -191,6 +196,7 @@ __CPROVER_assigns(PARSE_ASSIGNS(item, input_buffer));
 #define FIRST_IS(b, c) (ROOM(b, 1) && AT(b,0) == (c))
 #define FIRST_NUM(b) (ROOM(b, 1) && (AT(b,0) == '-' || (AT(b,0) >= '0' && AT(b,0) <= '9')))
 #define OTHERS_KEPT(item) ((item)->valuestring == __CPROVER_old((item)->valuestring) && (item)->child == __CPROVER_old((item)->child))
+#ifndef VF_CONTAINER_VIEWS
 static cJSON_bool parse_value(cJSON * const item, parse_buffer * const input_buffer)
 __CPROVER_requires(__CPROVER_is_fresh(item, sizeof(cJSON)) && PB_FRESH(input_buffer))
 PARSE_COMMON(item, input_buffer)
@@ -212,10 +218,14 @@ __CPROVER_ensures(LOGGED(D_VALUE, input_buffer))
 #endif
 __CPROVER_ensures(__CPROVER_return_value ==> LIVE_SAME) /*@C01 C08*/
 __CPROVER_assigns(PARSE_ASSIGNS(item, input_buffer));
+#endif
 
 /* ------------------------------------------------------------------ cJSON_Delete, callee view for a single root node
  * (the enforced, per-node contract is proved in the unit cJSON_Delete; see c_tree section) */
-cJSON *g_del_arg; size_t g_del_calls;   /* ghost log of cJSON_Delete calls (callee view) */
+struct vf_del_ghost { cJSON * del_arg; size_t del_calls; } g_dl;
+#define g_del_arg g_dl.del_arg
+#define g_del_calls g_dl.del_calls
+#define GHOST_DEL g_dl
 #ifndef VF_ENF_cJSON_Delete
 CJSON_PUBLIC(void) cJSON_Delete(cJSON *item)
 __CPROVER_requires(item == NULL || __CPROVER_rw_ok(item, sizeof(cJSON)))
@@ -223,14 +233,20 @@ __CPROVER_requires(HOOKS_OK(global_hooks))
 __CPROVER_ensures(g_live == ((__CPROVER_old(g_live) == (void*)item) ? NULL : __CPROVER_old(g_live)))
 __CPROVER_ensures(C14_POST(global_hooks))
 __CPROVER_ensures(g_del_arg == item && g_del_calls == __CPROVER_old(g_del_calls) + 1)
-__CPROVER_assigns(GHOST_ALLOC, g_del_arg, g_del_calls)
+__CPROVER_assigns(GHOST_ALLOC, GHOST_DEL)
 __CPROVER_frees(item != NULL: item);
 #endif
 
 /* ------------------------------------------------------------------ cJSON_ParseWithLengthOpts  (C10, C01, C03, C08, C14)
  * value: exactly buffer_length readable bytes (a read of byte buffer_length is out of bounds); never written (not in assigns). */
-const char *g_pl_value; size_t g_pl_len; const char **g_pl_rpe; cJSON_bool g_pl_rnt; cJSON *g_pl_ret; size_t g_pl_calls;   /* ghost log of calls */
-#define GHOST_PL g_pl_value, g_pl_len, g_pl_rpe, g_pl_rnt, g_pl_ret, g_pl_calls
+struct vf_pl_ghost { const char *value; size_t len; const char **rpe; cJSON_bool rnt; cJSON *ret; size_t calls; } g_plg;   /* ghost log of calls */
+#define g_pl_value g_plg.value
+#define g_pl_len g_plg.len
+#define g_pl_rpe g_plg.rpe
+#define g_pl_rnt g_plg.rnt
+#define g_pl_ret g_plg.ret
+#define g_pl_calls g_plg.calls
+#define GHOST_PL g_plg
 const char *g_po_value; const char **g_po_rpe; cJSON_bool g_po_rnt; cJSON *g_po_ret; size_t g_po_calls;
 #define GHOST_PO g_po_value, g_po_rpe, g_po_rnt, g_po_ret, g_po_calls
 size_t g_str_n;   /* ghost: size of the object holding a string argument (arbitrary, fixed by the harness) */
@@ -242,6 +258,7 @@ __CPROVER_requires(buffer_length <= VF_MAXLEN && (value == NULL || __CPROVER_is_
 __CPROVER_requires(return_parse_end == NULL || __CPROVER_is_fresh(return_parse_end, sizeof(*return_parse_end)))
 __CPROVER_requires(HOOKS_OK(global_hooks))
 #ifdef VF_ENF_cJSON_ParseWithLengthOpts
+__CPROVER_requires(g_del_calls == 0)
 __CPROVER_ensures((value == NULL || buffer_length == 0) ==> __CPROVER_return_value == NULL) /*@C01 C03*/
 /* failure: error pointer and reported position agree and lie inside the buffer, never past its last byte */
 __CPROVER_ensures((__CPROVER_return_value == NULL && value != NULL) ==> (global_error.json == UVAL && (buffer_length == 0 ? GE_POS == 0 : GE_POS < buffer_length))) /*@C10*/
@@ -263,7 +280,7 @@ __CPROVER_ensures((g_disp == D_VALUE && g_disp_ret && !require_null_terminated) 
 __CPROVER_ensures(__CPROVER_return_value == NULL ==> LIVE_SAME) /*@C01 C03 C08*/
 __CPROVER_ensures(__CPROVER_return_value != NULL ==> __CPROVER_rw_ok(__CPROVER_return_value, sizeof(cJSON))) /*@C01*/
 __CPROVER_ensures(C14_POST(global_hooks)) /*@C14*/
-__CPROVER_assigns(global_error, GHOST_ALLOC, GHOST_STRTOD, GHOST_LOG; return_parse_end != NULL: *return_parse_end);
+__CPROVER_assigns(global_error, GHOST_ALLOC, GHOST_STRTOD, GHOST_LOG, GHOST_DEL; return_parse_end != NULL: *return_parse_end);
 #else   /* callee view for the forwarding entry points: the call is logged, nothing else is needed there */
 __CPROVER_ensures(g_pl_value == value && g_pl_len == buffer_length && g_pl_rpe == return_parse_end && g_pl_rnt == require_null_terminated && g_pl_ret == __CPROVER_return_value && g_pl_calls == __CPROVER_old(g_pl_calls) + 1)
 __CPROVER_assigns(global_error, GHOST_ALLOC, GHOST_STRTOD, GHOST_LOG, GHOST_PL; return_parse_end != NULL: *return_parse_end);
@@ -305,5 +322,6 @@ __CPROVER_assigns();
 
 #include "c_print.h"
 #include "c_tree.h"
+#include "c_container.h"
 
 #endif
